@@ -26,7 +26,7 @@ import (
 //
 //	ft new <strategy> <cb 0|1|2> <rl 0|1> <hc 0|1|2|3: none, passive+active, passive only, passive only with handler < backend_read> <plugins 0|1>
 //	ft wait <ms>
-//	ft req <fault>              one request; fault ∈ ok refuse hang reset short garbage s500 slow stall cau cad
+//	ft req <fault>              one request; fault ∈ ok refuse hang reset short garbage s500 slow stall cau cad cah
 //	ft conc <n> <fault,fault,…> n concurrent requests, faults assigned round-robin
 //	ft probe                    wait for the unhealthy window / breaker timeout, then a clean request
 //
@@ -77,7 +77,7 @@ func (e *ftEnv) serveConn(c net.Conn) {
 		_, _ = br.Peek(1)
 	}
 	switch mode {
-	case "hang":
+	case "hang", "cah":
 		waitPeer()
 	case "reset":
 		_, _ = io.WriteString(c, "HTTP/1.1 200 OK\r\nContent-Length: 100\r\nContent-Type: text/plain\r\n\r\n0123456789")
@@ -227,6 +227,8 @@ func ftNew(strategy string, cb, rl bool, hc int, pl bool) string {
 		cfg.Plugins.Enabled = true
 		cfg.Plugins.Chain = []config.PluginConfig{
 			{Name: "logging"},
+			{Name: "request-id"},
+			{Name: "headers", Config: map[string]interface{}{"set": map[string]interface{}{"X-Via": "helios"}}},
 			{Name: "gzip", Config: map[string]interface{}{"level": 5, "min_size": 256, "content_types": []interface{}{"text/plain"}}},
 			{Name: "size_limit", Config: map[string]interface{}{"max_request_body": 1 << 20, "max_response_body": 16 << 20}},
 		}
@@ -278,6 +280,14 @@ func (e *ftEnv) exchange(fault string, limit time.Duration) (bool, string, int64
 		_, _ = c.Write(make([]byte, 1000))
 		time.Sleep(30 * time.Millisecond)
 		return ended("client-aborted-upload")
+	}
+	if fault == "cah" {
+		// a request whose client gives up while the backend is still silent
+		_, _ = io.WriteString(c, "GET /x HTTP/1.1\r\nHost: verif.test\r\nConnection: close\r\nAccept-Encoding: identity\r\n\r\n")
+		time.Sleep(150 * time.Millisecond)
+		_ = c.Close()
+		time.Sleep(80 * time.Millisecond) // Helios notices the client has gone and ends the exchange
+		return ended("client-abandoned")
 	}
 	if fault == "upg" {
 		// a clean request that offers a protocol upgrade (the backend answers a plain 200)
